@@ -468,6 +468,59 @@ func validateEncoder(c *child.Ctx) {
 	}
 }
 
+// c04CRCTwin returns a description that differs from m only in the last cells of its
+// last field array (CNR for MSM4, fine rate for MSM7), by the bits of the CRC-24Q
+// generator polynomial laid over the last 25 bits of that array.  The CRC is linear,
+// so a message that differs from another by a shifted copy of the generator has the
+// same remainder: the two frames have the same length and the same CRC bytes.
+func c04CRCTwin(m *ref.MSM) *ref.MSM {
+	msm7 := ref.IsMSM7(m.Type)
+	w := uint(6)
+	if msm7 {
+		w = 15
+	}
+	n := len(m.Sigs)
+	if m.CellsSent >= 0 && m.CellsSent < n {
+		return nil
+	}
+	if uint(n)*w < 25 {
+		return nil
+	}
+	// the last array as a bit string, most significant first
+	bits := make([]byte, 0, uint(n)*w)
+	for _, sg := range m.Sigs {
+		v := uint64(sg.CNR)
+		if msm7 {
+			v = uint64(int64(sg.RateDelta)) & (1<<15 - 1)
+		}
+		for b := int(w) - 1; b >= 0; b-- {
+			bits = append(bits, byte(v>>uint(b))&1)
+		}
+	}
+	const generator = uint32(0x1864CFB) // x^24 + ... + 1, 25 bits
+	for i := 0; i < 25; i++ {
+		bits[len(bits)-25+i] ^= byte((generator >> uint(24-i)) & 1)
+	}
+	cp := *m
+	cp.Sigs = append([]ref.Sig(nil), m.Sigs...)
+	for i := range cp.Sigs {
+		var v uint64
+		for b := uint(0); b < w; b++ {
+			v = v<<1 | uint64(bits[uint(i)*w+b])
+		}
+		if msm7 {
+			sv := int(v)
+			if v&(1<<14) != 0 {
+				sv = int(v) - (1 << 15)
+			}
+			cp.Sigs[i].RateDelta = sv
+		} else {
+			cp.Sigs[i].CNR = uint(v)
+		}
+	}
+	return &cp
+}
+
 // c04ConcurrentDecodes: several receivers' messages decoded at the same time.
 func c04ConcurrentDecodes(c *child.Ctx, r *ref.SplitMix64) {
 	// several receivers' messages decoded at the same time by different goroutines
@@ -622,6 +675,55 @@ func monC04(c *child.Ctx, replay json.RawMessage) {
 			c.Count("frames_decoded_back_to_back", int64(len(frames)))
 			c.EvalN(1)
 		}
+	}
+	// pairs of different well-formed messages of the same type and length whose frames
+	// end in the SAME three CRC bytes (the second differs from the first by the CRC's
+	// generator polynomial laid over the last 25 bits of its last field array):
+	// decoded one after the other, each gives its own contents
+	npairs := c.Share(c.Pick(8000, 160000))
+	made := 0
+	for i := 0; i < npairs*4 && made < npairs && c.NViolations() == 0; i++ {
+		m := gen.RandMSM(r, gen.MSMOpts{Type: ref.MSMTypes[i%len(ref.MSMTypes)]})
+		m2 := c04CRCTwin(m)
+		if m2 == nil {
+			continue
+		}
+		pa, pb := ref.EncodeMSM(m), ref.EncodeMSM(m2)
+		if len(pa) > 1023 || len(pa) != len(pb) || bytes.Equal(pa, pb) || ref.CRC24Q(append([]byte{0xd3, byte(len(pa) >> 8), byte(len(pa))}, pa...)) != ref.CRC24Q(append([]byte{0xd3, byte(len(pb) >> 8), byte(len(pb))}, pb...)) {
+			c.Count("crc_twins_not_constructible", 1)
+			continue
+		}
+		made++
+		kc := msmCase{M: m2, Pads: []int{m2.PadBytes}}
+		cj, _ := json.Marshal(kc)
+		if made%128 == 1 {
+			c.Begin(cj)
+		}
+		for pass, fr := range [][]byte{ref.Frame(pa), ref.Frame(pb)} {
+			want := []*ref.MSM{m, m2}[pass]
+			var why string
+			func() {
+				defer func() {
+					if x := recover(); x != nil {
+						why = fmt.Sprintf("panic: %v", x)
+					}
+				}()
+				direct, via, errText := decodeMSMBothWays(fr, ref.IsMSM7(want.Type), slog.LevelInfo)
+				if direct == nil {
+					why = "well-formed message rejected: " + errText
+					return
+				}
+				if why = compareMSM(want, direct); why == "" && via != nil {
+					why = compareMSM(want, via)
+				}
+			}()
+			if why != "" {
+				c.Violate("decode-mismatch", fmt.Sprintf("message %d of two messages of equal length whose frames carry the same CRC, decoded one after the other: %s", pass+1, why), cj)
+				break
+			}
+		}
+		c.Count("crc_twin_pairs_decoded", 1)
+		c.EvalN(1)
 	}
 	// (in the odd batches the prelude has already run the side-by-side decodes, as the
 	// first decodes of the process)
